@@ -77,6 +77,24 @@ func solveAll(obs []*Obligation, tier string, par int) {
 				}
 				return
 			}
+			// staged solving: fewer hypotheses first (always sound), the full query last
+			hasSoft := o.HasSoft()
+			if hasSoft {
+				for _, drop := range []int{2, 1} {
+					if drop == 2 && (o.Kind == "ensures" || o.Kind == "lemma" || o.Kind == "inv-preserved") {
+						continue
+					}
+					o.softDrop = drop
+					lv := Solve(o.QueryOpt(false, true), 3, false, o.Backends)
+					o.softDrop = 0
+					if lv.Result == "unsat" {
+						lv.Backend += fmt.Sprintf("(light%d)", drop)
+						o.Verdict = lv
+						o.Status = "discharged"
+						return
+					}
+				}
+			}
 			if o.HasQFacts() && o.Kind != "ensures" && o.Kind != "lemma" {
 				lt := 4
 				if o.Kind == "inv-preserved" || o.Kind == "inv-entry" {
@@ -154,7 +172,15 @@ func cmdFunc(args []string) int {
 	if *dump != "" {
 		os.MkdirAll(*dump, 0o755)
 		for _, o := range all {
-			os.WriteFile(filepath.Join(*dump, strings.NewReplacer("/", "_", ":", "_").Replace(o.Name)+".smt2"), []byte(o.Query(true)), 0o644)
+			base := filepath.Join(*dump, strings.NewReplacer("/", "_", ":", "_").Replace(o.Name))
+			os.WriteFile(base+".smt2", []byte(o.Query(true)), 0o644)
+			if o.HasSoft() {
+				for _, d := range []int{1, 2} {
+					o.softDrop = d
+					os.WriteFile(fmt.Sprintf("%s.light%d.smt2", base, d), []byte(o.QueryOpt(false, true)), 0o644)
+				}
+				o.softDrop = 0
+			}
 		}
 	}
 	start := time.Now()
@@ -222,7 +248,8 @@ func extraPkgs(rel string) []string {
 }
 
 var pkgDeps = map[string][]string{
-	"pkg/partition": {"pkg/convert"},
+	"pkg/partition":            {"pkg/convert"},
+	"banyand/internal/storage": {"pkg/timestamp"},
 }
 
 func cmdReplay(args []string) int   { fmt.Println("replay: not implemented yet"); return 2 }
